@@ -290,6 +290,9 @@ def cone_ustar(W):
     z, lb = ldp(W, np.ones(W.shape[0]))
     if z is None:
         return None, np.inf, np.inf, -np.inf
+    mn = float(np.min(W @ z))
+    if 0 < mn < 1:
+        z = z / mn  # make the primal point exactly feasible: its norm is then a certified upper bound on d1
     d1 = float(np.linalg.norm(z))
     return z / d1, d1, lb, float(np.min(W @ z) - 1.0)
 
